@@ -17,6 +17,36 @@ def selArgOfJson (j : Json) : R SelArg :=
         | _ => pure .bad
     | none, none => pure .bad
 
+/-- `"inf"`, `"-inf"`, `"nan"` or a rational -/
+def extOfJson (j : Json) : R ExtRat :=
+  match j with
+  | .str "inf" => pure .posInf
+  | .str "-inf" => pure .negInf
+  | .str "nan" => pure .nan
+  | _ => do pure (.fin (← ratOfJson j))
+
+/-- as `selArgOfJson`, coordinates may be non-finite -/
+def selArgEOfJson (j : Json) : R SelArgE :=
+  match fldOpt j "arg" with
+  | none => pure .centre
+  | some v =>
+    match fldOpt v "point", fldOpt v "range" with
+    | some p, _ => do pure (.point (← extOfJson p))
+    | none, some r => do
+        let xs ← listOf extOfJson r
+        match xs with
+        | [x, y] => pure (.range x y)
+        | _ => pure .bad
+    | none, none => pure .bad
+
+/-- `Region(p1, p2)` with possibly non-finite coordinates, then the operation on its corners -/
+def withBoxE {α} (j : Json) (k : List ExtRat → List ExtRat → M α) : R (M α) := do
+  let p1 ← listOf extOfJson (← fld j "p1")
+  let p2 ← listOf extOfJson (← fld j "p2")
+  pure (match boxMkE? p1 p2 with
+    | .error e => .error e
+    | .ok pp => k pp.1 pp.2)
+
 def selIdxToJson (a : Nat) : SelIdx → Json
   | .plane c k => Json.mkObj [("axis", .num (JsonNumber.fromNat a)), ("kind", .str "plane"),
       ("c", ratsJ [c]), ("k", natsJ [k])]
@@ -90,6 +120,38 @@ def c07 (op : String) (j : Json) : Option (R Json) :=
       let f ← fldOfJson (← fld j "field")
       let n ← ints j "n"
       pure (resJ fldToJson (resample f n))
+  | "sel_convert_e" => some do
+      let m ← meshOfJson (← fld j "mesh")
+      let dim ← strOfJson (← fld j "dim")
+      let arg ← selArgEOfJson j
+      pure (resJ (fun (p : Nat × SelIdx) => selIdxToJson p.1 p.2) (selConvertE m dim arg))
+  | "mesh_sel_e" => some do
+      let m ← meshOfJson (← fld j "mesh")
+      let dim ← strOfJson (← fld j "dim")
+      let arg ← selArgEOfJson j
+      pure (resJ meshToJson (selMeshE m dim arg))
+  | "field_sel_e" => some do
+      let f ← fldOfJson (← fld j "field")
+      let dim ← strOfJson (← fld j "dim")
+      let arg ← selArgEOfJson j
+      pure (resJ selOutToJson (selFldE f dim arg))
+  | "mesh_getitem_e" => some do
+      let m ← meshOfJson (← fld j "mesh")
+      pure (resJ meshToJson (← withBoxE j (getRegionE m)))
+  | "field_getitem_e" => some do
+      let f ← fldOfJson (← fld j "field")
+      pure (resJ fldToJson (← withBoxE j (getItemE f)))
+  | "region2slices_e" => some do
+      let m ← meshOfJson (← fld j "mesh")
+      pure (resJ (listJ fun (p : Nat × Nat) => natsJ [p.1, p.2]) (← withBoxE j (region2slicesE m)))
+  | "point2index_e" => some do
+      let m ← meshOfJson (← fld j "mesh")
+      let p ← listOf extOfJson (← fld j "point")
+      pure (resJ natsJ (point2indexE m p))
+  | "resample_fast" => some do
+      let f ← fldOfJson (← fld j "field")
+      let n ← ints j "n"
+      pure (resJ fldToJson (resampleFast f n))
   | "result_kind" => some do
       let fam ← match ← strOfJson (← fld j "fam") with
         | "sel" => pure OpFam.sel
